@@ -278,7 +278,15 @@ class GrainRun:
     def explore(self, hyps=(), stubs=None, max_paths=400):
         core = self.core
         present = [k for k in self.stubs() if hasattr(core, k)]
-        g = E.rebind_module(core, overrides={k: v for k, v in (stubs or self.stubs()).items() if k in present})
+        me = self
+
+        class RecShim(S.NPShim):
+            def argsort(self, a, *aa, **kk):
+                perm = S.sym_argsort(a)
+                me.calls.append(("argsort", (np.asarray(a, dtype=object).copy(),), tuple(int(i) for i in perm), []))
+                return perm
+
+        g = E.rebind_module(core, overrides={k: v for k, v in (stubs or self.stubs()).items() if k in present}, np_shim=RecShim())
         f = g.get("_get_rotation_and_strain")
         if f is None:
             return None
